@@ -202,3 +202,55 @@ func (r *Runner) liftOne(l *Line, steps []Step, M uint64) (fails []Fail) {
 	}
 	return fails
 }
+
+// replayLiftLight: a light-client behaviour (spec/LightClient.tla) on a lifted
+// forest: the verifier state starts as the bare roots of the high trees, every
+// position the client receives and holds is a shifted one.
+func (r *Runner) replayLiftLight(l *Line) lineResult {
+	steps := append(append([]Step{}, l.Hist...), l.Step)
+	total := 0
+	for i := range steps {
+		if steps[i].A == "block" {
+			total += steps[i].K
+		}
+	}
+	if total >= 1<<liftS {
+		return lineResult{skipped: "too many leaves to lift"}
+	}
+	r.internLine(l)
+	res := lineResult{insts: len(liftMs), extra: map[string]int{},
+		nontrivial: l.Step.A == "undoblock" || len(l.Step.D) > 0 || l.Step.K > 0}
+	for mi, M := range liftMs {
+		if !r.one && (lineHash(l.raw)+uint64(mi))%2 == 1 {
+			continue
+		}
+		w := NewWorld(r.sy, WorldCfg{Seed: r.cfg.Seed})
+		w.liftM = M
+		lc := &lightClient{}
+		for b := 63; b >= 0; b-- {
+			if M>>uint(b)&1 == 1 {
+				t := junkTerm(500 + b)
+				lc.S.Roots = append(lc.S.Roots, r.sy.H(t))
+				w.highT = append(w.highT, t)
+			}
+		}
+		lc.S.NumLeaves = M << liftS
+		in := &Inst{Name: "lightclient.lifted", Kind: KStump}
+		for i := range steps {
+			w.stepI = i
+			st := &steps[i]
+			if st.A == "block" {
+				w.lightBlock(in, lc, st)
+			} else {
+				w.lightUndo(in, lc, st)
+			}
+		}
+		for i := range w.fails {
+			w.fails[i].What += fmt.Sprintf(" [lifted onto %d high leaves]", M<<liftS)
+		}
+		res.fails = append(res.fails, w.fails...)
+		res.calls += w.mon.ncalls
+		res.extra["lifted_behaviours"]++
+	}
+	return res
+}
